@@ -92,6 +92,9 @@ def _mutated(draw):
         ps = list(G.paths(cur))
         path = list(ps[draw(st.integers(0, 10 ** 6)) % len(ps)])
         op = MU.OPS[draw(st.integers(0, 10 ** 6)) % len(MU.OPS)]
+        own = MU.own_ops(G.get_path(cur, path))
+        if own and draw(st.integers(0, 2)) == 0:
+            op = own[draw(st.integers(0, 10 ** 6)) % len(own)]      # one time in three: an edit of the node's own kind
         m = {"path": path, "op": op}
         r = MU.apply(cur, m)
         if r is MU.INAPPLICABLE:   # op does not apply at this node: fall back to a replacement (always applies)
@@ -237,6 +240,18 @@ def check_accepted(case):
     for T, N in ((doc, other), (other, doc), (doc, doc)):
         _family(A.verify_root, copy.deepcopy(T), copy.deepcopy(N))
         n += 1
+    # the accepted document as trusted root of its own successor (same content, next version: the version rule passes and the
+    # signature entries it carries are really examined), and as authority over an envelope that carries the same entries
+    succ = copy.deepcopy(doc)
+    if type(succ["signed"].get("version")) is int:
+        succ["signed"]["version"] += 1
+        _family(A.verify_root, copy.deepcopy(doc), succ)
+        n += 1
+    for role in list(doc["signed"]["delegations"])[:4]:
+        for gpg in (False, True):
+            env = {"signatures": copy.deepcopy(doc["signatures"]), "signed": {"name": "pkg", "version": "1.0"}}
+            _family(A.verify_delegation, role, env, copy.deepcopy(doc), gpg=gpg)
+            n += 1
     roles = list(doc["signed"]["delegations"]) + list(other["signed"]["delegations"]) + ["no such role", doc["signed"]["type"]]
     for role in roles:
         for gpg in (False, True):
@@ -249,6 +264,12 @@ def check_accepted(case):
 
 def check_fuzz(case):
     return FZ.run_campaign("fuzz_schema", case, PROPERTY)
+
+
+def _no_crowd(case):
+    """keep the 1000+-key roles out of the quadratic interruption sweeps (they are in every other unit)"""
+    d = case["doc"]["signed"].get("delegations", {})
+    return all(len(v.get("pubkeys", ())) < 50 for v in d.values() if isinstance(v, dict))
 
 
 UNITS = [
@@ -269,7 +290,8 @@ UNITS = [
     _cfgunit.unit_under_config(PROPERTY, 'accepted', exclude=(), n_cases=4),
     Unit("leaf_mutated", check_mutated, strategy=_leaf_mutated, quick=1500, thorough=40000, essential=["schema=no"],
          doc="one boundary edit of one leaf with a grammar of its own (key, signature, header, fingerprint, time, version, threshold) in valid metadata"),
-    _interrupt.unit_interrupted(PROPERTY, 'mutated', quick=24, thorough=600, max_points=120),
-    _interrupt.unit_interrupted(PROPERTY, 'leaf_mutated', quick=60, thorough=1500, max_points=1000, shards_quick=12),
+    _interrupt.unit_interrupted(PROPERTY, 'mutated', quick=24, thorough=600, max_points=120, filter_case=_no_crowd),
+    _interrupt.unit_interrupted(PROPERTY, 'leaf_mutated', quick=60, thorough=1500, max_points=1000, shards_quick=12, filter_case=_no_crowd),
     _interfere.unit_after(PROPERTY, 'leaf_mutated', quick=800, thorough=20000),
+    _cfgunit.unit_under_clocks(PROPERTY, 'valid'),
 ]
